@@ -219,6 +219,14 @@ def run(chk, tier, seed, replay=None):
             force_children(rng, c['world'], c['o'])
             c['mode'] = 'cli'
     cases += rcases
+    # nothing fails but layer tearDowns: in the final sweep, half-way through a sweep that a
+    # NotImplementedError then cuts short, in graphs with several bases
+    dcases = corecheck.gen_cases(rng, graphs, 30 if tier == 'quick' else 300,
+                                 dict(prof_good, outcomes=['pass'], faults=(0.0, 0.3, 0.25), hooks='all',
+                                      tests_per_layer=(1, 2), unit_tests=(0, 1), big=0.4), 'd')
+    for c in dcases:
+        c['o'] = {'verbose': rng.choice([0, 1]), 'stop': rng.random() < 0.3}
+    cases += dcases
     # -D: the debugger (its stdin is at end of file) ends the run after the first failure
     pcases = corecheck.gen_cases(rng, graphs, 3 if tier == 'quick' else 30,
                                  dict(prof_good, outcomes=['pass', 'error', 'fail'], faults=(0.0, 0.0, 0.0),
